@@ -76,8 +76,10 @@ type Provider struct {
 }
 
 type provider struct {
-	close func() error                      `name:"!!"`
-	begin func() ([]call, error)            `name:"!"`
+	close func() error `name:"!!"`
+	// a pointer: the service answers null when it has dropped this poll and an empty list when
+	// there was nothing to do, and a slice destination would be nil for both
+	begin func() (*[]call, error)           `name:"!"`
 	end   func(results []returnValue) error `name:"="`
 }
 
@@ -259,7 +261,9 @@ func (p *Provider) dispatch(calls []call) {
 			results[i] = newReturnValue(results[i].Index(), nil, err.Error())
 		}
 	}
-	for atomic.LoadInt32(&p.closed) == 0 {
+	// the results of calls that have run are reported at least once, also when the provider
+	// has been closed meanwhile: their callers wait for them
+	for first := true; first || atomic.LoadInt32(&p.closed) == 0; first = false {
 		if err := p.proxy.end(results); err != nil {
 			if !core.IsTimeoutError(err) {
 				if p.RetryInterval != 0 {
@@ -291,7 +295,10 @@ func (p *Provider) Listen() {
 		if calls == nil {
 			return
 		}
-		go p.dispatch(calls)
+		if len(*calls) == 0 {
+			continue // nothing to do within the service's idle time-out: poll again
+		}
+		go p.dispatch(*calls)
 	}
 }
 
